@@ -138,8 +138,8 @@ RV_<G_<NFT_, TC_, Manual, TRO_ HFSM2_IF_UTILITY_THEORY(, TR_, TU_, TG_), NSL_ HF
 	HFSM2_ASSERT(_core.previousTransitions.count() == 0);
 
 	if (HFSM2_CHECKED(transitions && count)) {
-		TransitionSets emptyTransitions;
-		PlanControl control{_core, emptyTransitions};
+		TransitionSets currentTransitions;
+		PlanControl control{_core, currentTransitions};
 
 		_apex.deepRequestChange(control, {TransitionType::CHANGE, INVALID_SHORT});
 
@@ -149,6 +149,9 @@ RV_<G_<NFT_, TC_, Manual, TRO_ HFSM2_IF_UTILITY_THEORY(, TR_, TU_, TG_), NSL_ HF
 
 		for (Short i = 0; i < count; ++i)
 			_core.previousTransitions.emplace(transitions[i]);
+
+		// enter() on the replica sees the transitions (and payloads) it sees on the authority
+		currentTransitions = _core.previousTransitions;
 
 		_apex.deepEnter(control);
 
